@@ -9,7 +9,9 @@ LEVEL = "exploration"
 TECHNIQUE = ("differential runtime monitor: network.message.pack/parse vs independent per-message wire encoders, boundary-biased field "
              "values; every value set also in a second call spelling (keyword order, undeclared keys, container types, input buffer "
              "type, re-pack of the parsed dict); plus call histories on one network with long-lived, in-place changed and shared "
-             "objects, a reused receive buffer and interleaved failing calls")
+             "objects, a reused receive buffer and interleaved failing calls; every second value set once more in another value-TYPE "
+             "spelling (text / bytes-likes / int subclasses / 0-1 flags / other constructors) with the caller's arguments compared before "
+             "and after; string and array lengths 254/255/256/65535/65536 for every field; one long run of > 2^16 judged calls")
 RULE = ("cases: (network BTC/LTC, message name, field values) for every key of STANDARD_P2P_MESSAGES enumerated at run time; values "
         "are per declared type boundary values (u32 0/1/2^31/2^32-1, u64 to 2^64-1, 6-byte ids to 2^48-1, u8 0/255, booleans, "
         "compact-size boundaries), arrays of length 0/1/2/252/253/1000, IPv4-mapped and IPv6 addresses, ports 0/1/255/256/8333/65535, "
@@ -35,7 +37,19 @@ RULE = ("cases: (network BTC/LTC, message name, field values) for every key of S
         "cut-off bytes followed by valid calls, objects and containers returned by parse sent on (and changed), the same bytes parsed "
         "again later. Each message's keyword dict is built once in an rng-chosen order (70% not the declared one; 12% with an undeclared "
         "key), adopted parse results keep every key parse returned; payloads are parsed from bytes / subclass / bytearray / memoryview / "
-        "one per-history receive buffer (bytearray, also through a memoryview) that is refilled for the next payload. Every valid pack/parse in a history is a case, distinct by (network, message, reference bytes, preceding step class).")
+        "one per-history receive buffer (bytearray, also through a memoryview) that is refilled for the next payload. Every valid pack/parse in a history is a case, distinct by (network, message, reference bytes, preceding step class). "
+        "The refused pack calls are counted by how they come to be refused (unknown name, missing keyword incl. the optional relay, None / str / "
+        "float / negative / too large a value at the first or at a later field, an object with a field out of range, an object of the other "
+        "network) and each kind is required. "
+        "Value-type spellings (every second value set, one dimension each, all required): string fields as text (12 classes: empty, ASCII, "
+        "2/3/4-byte characters, fewer than 253 / 65536 characters but more bytes, exactly 252 / 253 bytes, BOM first, NUL) / bytearray / "
+        "memoryview / bytes subclass, hashes and byte arrays alike; integers as int subclass, IntEnum member, bool for 0 / 1 (also inside "
+        "PeerAddress and InvItem); flags as 1 / 0; addresses in the other constructor spelling or as a PeerAddress subclass instance, "
+        "inventory items through the other constructor, Tx / header / Block parsed from bytes instead of constructed. "
+        "Length boundaries: every string and array field once per run with 254, 255, 256, 65535 and 65536 bytes / elements (quick: one "
+        "of three transaction arrays and one message of each same-layout group at 2^16, by seed). "
+        "Long run: one shard with 2^16+100 (thorough 2^17+100) rounds on the BTC packer/parser, each a ping with a running nonce plus one "
+        "other small message around long-lived objects, every call judged.")
 ASSUMPTIONS = [
     "reference encoders in vmon/refs/p2p.py (with txser, blockser) follow the protocol documents; self-tested on every run against "
     "hand-assembled byte strings, documented examples (address 198.27.100.9:8333, feefilter 48508, filterload b50f/11) and "
@@ -55,6 +69,12 @@ ASSUMPTIONS = [
     "violation. A parse result that was right when returned and changes when the caller later overwrites the bytearray it passed is "
     "counted, not reported. A bytes-subclass instance is a bytes object and must be parsed",
     "field values are compared by value: a byte string may come back in any bytes-like type, True == 1",
+    "value types: the table declares S as 'unicode string encoded using utf-8', so a str handed to an S field stands for its utf-8 "
+    "bytes; an instance of an int subclass (IntEnum member, bool) stands for its integer value, 1 / 0 for True / False; bytearray / "
+    "memoryview / bytes-subclass instances stand for their bytes. None of these spellings has to be accepted: a refusal (also by the "
+    "PeerAddress / InvItem constructor) is counted, never reported; only bytes RETURNED that are not the wire encoding of the value are a "
+    "violation. A pack call (returning or refusing) that leaves a caller-owned bytearray / list argument changed is reported: the values "
+    "the caller passed would otherwise not be the ones a second pack of the same arguments encodes",
     "histories: 'the fields of a message' are the values its argument objects have when pack is called; objects are changed between "
     "calls only through what the library defines or does itself (Block.set_nonce, Block.set_txs with transactions matching the header "
     "root, Tx.set_witness, assignment to TxIn.script / TxIn.sequence / TxOut.coin_value as Solver, SolutionChecker and tx_utils do, list "
@@ -69,7 +89,7 @@ EXPLANATION = ("for each value set: pack(name, **values) must equal the referenc
                "(wrong once = state left by an earlier call; right with fresh objects = state kept on the reused object). A wrong answer "
                "to a second call spelling is narrowed by repeating the plain call and the spelling one dimension at a time "
                "(not repeatable / keyword order / container spelling / undeclared keyword / input spelling)")
-TIMEOUT = {"quick": 600, "thorough": 3 * 3600}
+TIMEOUT = {"quick": 1800, "thorough": 3 * 3600}
 
 N_SHARDS = 16
 
@@ -77,7 +97,9 @@ N_SHARDS = 16
 def plan(tier, seed):
     sets = 20000 if tier == "quick" else 2400000
     histories = 1000 if tier == "quick" else 120000
-    return [{"part": p, "parts": N_SHARDS, "sets": sets, "histories": histories, "label": "messages-%d" % p} for p in range(N_SHARDS)]
+    shards = [{"part": p, "parts": N_SHARDS, "sets": sets, "histories": histories, "label": "messages-%d" % p} for p in range(N_SHARDS)]
+    # one more process for the long run: > 2^16 (2^17) judged operations on one packer / parser
+    return shards + [{"longrun": ((1 << 16) if tier == "quick" else (1 << 17)) + 100, "label": "longrun"}]
 
 
 def configurations(tier):
@@ -638,6 +660,260 @@ def repack_kwargs(d, model, how, seed=0):
     return {k: (model[k] if k == "relay" else d[k]) for k in keys}
 
 
+# ------------------------------------------------------------------------------------------- value-type spellings
+#
+# The same field VALUE can be handed over in several Python types: a string field as bytes / a bytes subclass / bytearray /
+# memoryview, or as text (the table declares "S: unicode string encoded using utf-8"); an integer as an int subclass, an
+# IntEnum member, a bool for 0 / 1; a flag as True / False or 1 / 0; an address built from 4 or from 16 bytes or as an
+# instance of a PeerAddress subclass; a Tx / Block built by the constructor or parsed from bytes.  One dimension per value
+# set (all come round).  A refusal is counted, never judged; when pack RETURNS the bytes must be the wire encoding of the
+# value (for text: of its utf-8 bytes).  Arguments owned by the caller (bytearray, list) must come back unchanged and a
+# second call with the very same objects must give the same bytes.
+
+TYPE_DIMS = ("str", "bytearray", "int_subclass", "flag_int", "object_spelling", "memoryview", "int_enum_bool", "bytes_subclass")
+DIM_LETTERS = {"str": "S", "bytearray": "S#", "memoryview": "S#", "bytes_subclass": "S#Av", "int_subclass": "LQ16IAv",
+               "int_enum_bool": "LQ16IAv", "flag_int": "bO", "object_spelling": "AvTBz"}
+TEXT_CLASSES = ("two_byte", "three_byte", "empty", "four_byte", "chars_below_253_bytes_above", "ascii", "bytes_exactly_253",
+                "bom_first", "bytes_exactly_252", "nul_and_controls", "chars_below_65536_bytes_above", "long_mixed")
+NO_TEXT = {("alert", "payload")}         # a structure (parse post-processes it), not free text
+_ASCII = "".join(chr(c) for c in range(32, 127))
+_TWO = "\u00ef\u00e4\u00df\u00e9\u0080\u07ff\u03a9\u0416"            # utf-8: two bytes each
+_THREE = "\u20bf\u20ac\u0800\uffff\u4e2d\u2603\ud7ff"               # three bytes each
+_FOUR = "\U0001f600\U00010000\U0010ffff\U0001f4b0"
+
+
+class IntSub(int):
+    """a caller's own integer type (a height, a set of service bits): an int"""
+    __slots__ = ()
+
+
+_ENUM = {}
+
+
+def enum_member(v):
+    """an IntEnum member of value v (what a caller that names its protocol constants passes)"""
+    if v not in _ENUM:
+        import enum
+        if len(_ENUM) > 4096:
+            _ENUM.clear()
+        _ENUM[v] = enum.IntEnum("WireValue", {"VALUE": v}).VALUE
+    return _ENUM[v]
+
+
+def make_text(rng, cls):
+    def some(alphabet, lo, hi):
+        return "".join(rng.choice(alphabet) for _ in range(rng.randrange(lo, hi)))
+    if cls == "empty":
+        return ""
+    if cls == "ascii":
+        return some(_ASCII, 1, 40)
+    if cls == "two_byte":
+        return some(_ASCII, 0, 8) + some(_TWO, 1, 3) + some(_ASCII, 0, 8)
+    if cls == "three_byte":
+        return some(_ASCII, 0, 8) + some(_THREE, 1, 3) + some(_ASCII, 0, 8)
+    if cls == "four_byte":
+        return some(_ASCII, 0, 8) + some(_FOUR, 1, 3) + some(_ASCII, 0, 8)
+    if cls == "chars_below_253_bytes_above":
+        n = rng.randrange(127, 253)
+        return "".join(rng.choice(_TWO + _THREE) for _ in range(n))
+    if cls == "bytes_exactly_253":
+        t = list(some(_ASCII, 251, 252) + rng.choice(_TWO))
+        rng.shuffle(t)
+        return "".join(t)
+    if cls == "bytes_exactly_252":
+        t = list(some(_ASCII, 249, 250) + rng.choice(_THREE))
+        rng.shuffle(t)
+        return "".join(t)
+    if cls == "bom_first":
+        return "\ufeff" + some(_ASCII + _TWO, 0, 12)
+    if cls == "nul_and_controls":
+        return some("\0\n\r\t\x7f\x1b" + _ASCII + _TWO, 1, 12) + "\0"
+    if cls == "chars_below_65536_bytes_above":
+        base = some(_ASCII, 7, 8)
+        return (base * 9363)[:rng.choice([65534, 65533, 65000])] + rng.choice(_TWO + _THREE)
+    return some(_ASCII + _TWO + _THREE + _FOUR, 254, 400)
+
+
+def make_type_spelling(rng, name, j):
+    """{"dim": dimension, "text": {field: text}}: the j-th value set of a message takes dimension j (the next one that
+    touches a field of this message)"""
+    letters = "".join(VALUE_TYPES.get(name, {}).values())
+    for i in range(len(TYPE_DIMS)):
+        dim = TYPE_DIMS[(j + i) % len(TYPE_DIMS)]
+        if any(c in letters for c in DIM_LETTERS[dim]) or ("[1]" in letters and dim in ("bytearray", "memoryview", "bytes_subclass")):
+            break
+    else:
+        return None
+    out = {"dim": dim}
+    if dim == "str":
+        out["text"] = {}
+        for i, (k, t) in enumerate(VALUE_TYPES[name].items()):
+            if t == "S" and (name, k) not in NO_TEXT:
+                cls = TEXT_CLASSES[(j // len(TYPE_DIMS) + i) % len(TEXT_CLASSES)]
+                out["text"][k] = make_text(rng, cls)
+                out.setdefault("text_class", {})[k] = cls
+    return out
+
+
+_TAGGED = []
+
+
+def tagged_peer_address():
+    """what an address book that keeps its own notes on a peer hands over: an instance of a PeerAddress subclass"""
+    if not _TAGGED:
+        from pycoin.message.PeerAddress import PeerAddress
+
+        class TaggedPeerAddress(PeerAddress):
+            seen_at = 0
+        _TAGGED.append(TaggedPeerAddress)
+    return _TAGGED[0]
+
+
+def _respell_addr(a, dim, deep=0):
+    from pycoin.message.PeerAddress import PeerAddress
+    ip = a["ip"][12:] if addr_in_4_bytes(a) else a["ip"]
+    if dim == "bytes_subclass":
+        return PeerAddress(a["services"], BytesSubclass(ip), a["port"])
+    if dim == "int_subclass":
+        return PeerAddress(IntSub(a["services"]), ip, IntSub(a["port"]))
+    if dim == "int_enum_bool":
+        services = enum_member(a["services"]) if (deep < 2 or a["services"] < 16) else IntSub(a["services"])
+        return PeerAddress(services, ip, a["port"] == 1 if a["port"] in (0, 1) else enum_member(a["port"]) if deep < 2 else IntSub(a["port"]))
+    if dim == "object_spelling":
+        # the other constructor spelling of an IPv4 address; an instance of a subclass otherwise
+        if a["ip"][:12] == IPV4_PREFIX:
+            return PeerAddress(a["services"], a["ip"] if addr_in_4_bytes(a) else a["ip"][12:], a["port"])
+        return tagged_peer_address()(a["services"], a["ip"], a["port"])
+    return None
+
+
+def _respell_inv(i, dim, deep=0):
+    from pycoin.message.InvItem import InvItem
+    if dim == "bytes_subclass":
+        return InvItem(i["type"], BytesSubclass(i["hash"]), dont_check=True)
+    if dim == "int_subclass":
+        return InvItem(IntSub(i["type"]), i["hash"], dont_check=True)
+    if dim == "int_enum_bool":
+        return InvItem(enum_member(i["type"]) if (deep < 2 or i["type"] < 5) else IntSub(i["type"]), i["hash"], dont_check=not inv_checked(i))
+    if dim == "object_spelling":
+        # the other constructor where it exists
+        return InvItem(i["type"], i["hash"], dont_check=not (i["type"] in (1, 2, 3) and not inv_checked(i)))
+    return None
+
+
+def respell_type(N, t, ref, lib, dim, deep=0):
+    """the library-side value for the reference value `ref` of declared type letter `t` in dimension `dim` (or `lib`)"""
+    if t not in DIM_LETTERS[dim]:
+        return lib
+    if t in "S#":
+        return {"bytearray": bytearray, "memoryview": memoryview, "bytes_subclass": BytesSubclass}[dim](ref)
+    if t in "LQ16I":
+        if dim == "int_subclass":
+            return IntSub(ref)
+        if ref in (0, 1):
+            return ref == 1
+        return enum_member(ref) if deep < 2 else IntSub(ref)
+    if t in "bO":
+        return None if ref is None else int(ref)
+    if t == "A":
+        return _respell_addr(ref, dim, deep) or lib
+    if t == "v":
+        return _respell_inv(ref, dim, deep) or lib
+    import io
+    if t == "T":
+        return N.tx.from_bin(RT.serialize(ref))
+    if t == "z":
+        return N.block.parse_as_header(io.BytesIO(RB.ser_header(ref)))
+    if t == "B":
+        return N.block.from_bin(RB.ser_block(ref["header"], ref["txs"]))
+    return lib
+
+
+def respell_types(N, name, fields, kw, spelling):
+    """-> (keyword arguments in the type spelling, field values they stand for)"""
+    dim = spelling["dim"]
+    out, f2 = {}, dict(fields)
+    for k, t in VALUE_TYPES[name].items():
+        ref, lib = fields[k], kw[k]
+        if dim == "str":
+            if k in spelling.get("text", {}):
+                out[k] = spelling["text"][k]
+                f2[k] = spelling["text"][k].encode("utf-8")
+            else:
+                out[k] = lib
+        elif t[0] != "[":
+            out[k] = respell_type(N, t, ref, lib, dim)
+        else:
+            et = t[1:-1]
+            if et == "1":
+                # byte arrays: a list of the caller's integers (bytes / bytearray are container spellings, see above)
+                if dim in ("bytearray", "memoryview", "bytes_subclass"):
+                    out[k] = {"bytearray": bytearray, "memoryview": memoryview, "bytes_subclass": BytesSubclass}[dim](bytes(ref))
+                else:
+                    out[k] = [respell_type(N, "1", r, r, dim, 1 + (i > 0)) for i, r in enumerate(ref)] if "1" in DIM_LETTERS[dim] else lib
+            elif len(et) == 1:
+                out[k] = [respell_type(N, et, r, x, dim, 1 + (i > 0)) for i, (r, x) in enumerate(zip(ref, lib))]
+            else:
+                keys = PAIR_KEYS[et]
+                out[k] = [tuple(respell_type(N, c, r[key], y, dim, 1 + (i > 0)) for c, key, y in zip(et, keys, x))
+                          for i, (r, x) in enumerate(zip(ref, lib))]
+    return out, f2
+
+
+def snapshot(v):
+    """what the caller can see of an argument it owns: the content of mutable containers (identity of the rest)"""
+    if isinstance(v, bytearray):
+        return bytes(v)
+    if isinstance(v, (list, tuple)):
+        return [snapshot(x) if isinstance(x, (bytearray, list)) else x for x in v]
+    return v
+
+
+def unchanged(snap, v):
+    if isinstance(v, bytearray):
+        return snap == bytes(v)
+    if isinstance(v, (list, tuple)):
+        return len(snap) == len(v) and all((unchanged(a, b) if isinstance(b, (bytearray, list)) else a is b) for a, b in zip(snap, v))
+    return snap is v
+
+
+def judge_value_types(N, name, fields, kw, spelling, want, case, rec):
+    dim = spelling["dim"]
+    rec.ev("pack_value_type")
+    rec.ev("pack_value_type:" + dim)
+    for cls in spelling.get("text_class", {}).values():
+        rec.ev("pack_value_type:str:" + cls)
+    st, r = observe(respell_types, N, name, fields, kw, spelling)
+    if st != "ok":
+        rec.ev("pack_value_type_not_constructible:" + dim)           # a helper constructor refused the spelling: not judged
+        return
+    kw2, f2 = r
+    if dim == "str":
+        want = P2P.encode(name, f2)
+    before = {k: snapshot(v) for k, v in kw2.items()}
+    st, got = observe(lambda: N.message.pack(name, **kw2))
+    changed = sorted(k for k, v in kw2.items() if not unchanged(before[k], v))
+    if changed:
+        rec.violation("p2p.pack_modifies_argument.%s" % name, case, {"fields": changed}, "arguments unchanged")
+        return
+    if st != "ok":
+        rec.ev("pack_value_type_refused:" + dim)                      # a refusal is not a wrong answer
+        return
+    rec.ev("pack_value_type_returned:" + dim)
+    if got != want:
+        if dim == "str":
+            ascii_only = all(ord(c) < 128 for t in spelling["text"].values() for c in t)
+            rec.violation("p2p.pack_value_type.str.%s.%s" % ("ascii" if ascii_only else "non_ascii", name), case, got, want)
+        else:
+            rec.violation("p2p.pack_value_type.%s.%s" % (dim, name), case, got, want)
+        return
+    if len(want) <= 1024:
+        st, again = observe(lambda: N.message.pack(name, **kw2))
+        rec.ev("pack_value_type:same_objects_again")
+        if st != "ok" or again != want:
+            rec.violation("p2p.pack_value_type.not_repeatable.%s.%s" % (dim, name), case, again, want)
+
+
 # ------------------------------------------------------------------------------------------- value classes
 #
 # Which regions of "every field value of the declared type" a run reached is counted per (message, field) from the
@@ -795,8 +1071,23 @@ def judge_pack_variant(N, name, kw, types, variant, want, case, rec):
         rec.ev("pack_variant:order_" + variant.get("order_kind", "other"))
     if containers:
         rec.ev("pack_variant:containers_" + containers)
-    r = call(order=order, extra=extra, containers=containers)
+    st, spelled = observe(spell_kwargs, kw, types, order=order, extra=extra, containers=containers)
+    if st != "ok":
+        # the caller's objects cannot be spelled any more (an earlier call damaged them): a failing spelling, named below
+        r, spelled, before = (st, spelled), {}, {}
+    else:
+        before = {k: snapshot(v) for k, v in spelled.items()}
+        r = observe(lambda: N.message.pack(name, **spelled))
+    changed = sorted(k for k, v in spelled.items() if not unchanged(before[k], v))
+    if changed:
+        # the caller's own containers (list, bytearray) are not what they were before the call
+        rec.violation("p2p.pack_modifies_argument.%s" % name, case, {"fields": changed}, "arguments unchanged")
+        return
     if good(r):
+        if len(want) <= 1024:
+            rec.ev("pack_variant:same_objects_again")
+            if not good(observe(lambda: N.message.pack(name, **spelled))):
+                rec.violation("p2p.pack_not_repeatable.%s" % name, case, r[1], want)
         return
     if not good(call()):
         # the plain call that was right a moment ago (or was reported above) is wrong now
@@ -846,6 +1137,8 @@ def judge(net, name, fields, rec, sample=False, variant=None):
             rec.violation("p2p.pack_bytes_mismatch.%s" % name, case, got, want)
     elif variant:
         judge_pack_variant(N, name, kw, types, variant, want, case, rec)
+        if variant.get("types"):
+            judge_value_types(N, name, fields, kw, variant["types"], want, case, rec)
     rec.ev("parse")
     rec.ev("parse:" + name)
     how = variant.get("data", "bytes")
@@ -957,6 +1250,32 @@ HISTORY_NAMES = (["headers"] * 5 + ["block"] * 3 + ["merkleblock"] * 2 + ["tx"] 
                                                    "filterload", "filteradd", "reject", "ping", "pong", "feefilter", "sendcmpct",
                                                    "alert", "verack"])
 NO_LIST_EDIT = {"merkleblock"}          # the proof ties hashes/flags/total together
+
+
+def refusal_kind(v, w):
+    """class of an invalid value w put in the place of the valid v (how a pack call comes to be refused part-way)"""
+    if w is None:
+        return "none"
+    if isinstance(w, str):
+        return "str_for_bytes" if isinstance(v, bytes) else "str_for_scalar"
+    if isinstance(w, float):
+        return "float"
+    if isinstance(w, bool) or isinstance(w, int):
+        return "int_negative" if w < 0 else "int_for_other_type" if not isinstance(v, int) or isinstance(v, bool) else "int_too_large"
+    if isinstance(w, bytes):
+        return "bytes_for_object"
+    if type(w) is object:
+        return "foreign_object"
+    if type(w) is type(v):
+        return "object_with_field_out_of_range"
+    return "object_of_other_network"
+
+
+REFUSED_PACK_KINDS = ("unknown_message_name", "missing_keyword", "missing_keyword_optional_relay", "none@later_field",
+                      "str_for_bytes@later_field", "str_for_scalar@later_field", "float@later_field",
+                      "int_negative@later_field", "int_too_large@later_field", "int_too_large",
+                      "object_with_field_out_of_range@later_field", "object_of_other_network@later_field",
+                      "bytes_for_object", "foreign_object@later_field")
 
 
 class History:
@@ -1342,6 +1661,12 @@ class History:
 
     def corrupt(self, v, N=None):
         """a value of the same place that the field type cannot carry (biased to late positions of arrays)"""
+        w = self.corrupt_value(v, N)
+        if not isinstance(v, (list, tuple)) or not isinstance(w, (list, tuple)):
+            self.corrupt_kind = refusal_kind(v, w)
+        return w
+
+    def corrupt_value(self, v, N=None):
         rng, N = self.rng, N or self.N
         other = self.other if N is self.N else self.N
         from pycoin.message.PeerAddress import PeerAddress
@@ -1421,13 +1746,22 @@ class History:
         if not keys or r < 0.05:
             bad_name, bad_kw = "no_such_message", kw
         elif r < 0.12:
-            bad_name, bad_kw = name, {k: v for k, v in kw.items() if k != keys[-1]}          # a missing keyword
+            # a missing keyword: the last one the caller wrote or the last one declared (the optional `relay` of version)
+            declared = [k for k in types_of(name) if k in kw]
+            gone = rng.choice([keys[-1], declared[-1]])
+            bad_name, bad_kw = name, {k: v for k, v in kw.items() if k != gone}
+            what = "missing_keyword" + ("_optional_relay" if gone == "relay" else "_first_declared" if gone == declared[0] else "")
         else:
             k = keys[max(rng.randrange(len(keys)), rng.randrange(len(keys)))]
             bad_name, bad_kw = name, dict(kw, **{k: self.corrupt(kw[k])})
+            what = self.corrupt_kind + ("" if k == list(types_of(name))[0] else "@later_field")
+        if bad_name != name:
+            what = "unknown_message_name"
         st, got = observe(lambda: N.message.pack(bad_name, **bad_kw))
         self.rec.ev("history.step:pack_with_invalid_value")
         self.rec.ev("history.invalid_pack_%s" % ("raised" if st != "ok" else "returned"))
+        if st != "ok":
+            self.rec.ev("history.refused_pack:" + what)
         self.after = "failed_pack" if st != "ok" else "invalid_pack_returned"
         if st != "ok":
             self.last_failed = self.failed_pack_seen = "failed_pack"
@@ -1523,14 +1857,223 @@ def run_history(ident, rec):
     return h
 
 
+# ------------------------------------------------------------------------------------------- length boundaries
+#
+# Every string length and array count is a compact size: the lengths next to its width changes that the value sets above
+# reach only by chance (254, 255, 256 - the prefix bytes 0xfe / 0xff themselves as lengths) or not at all (65535 / 65536)
+# are driven once per run for every string and array field.  Elements of long arrays cycle through 64 generated ones.
+
+LENGTH_EDGE = (254, 255, 256, 65535, 65536)
+LENGTH_FIELDS = [(name, k) for name, types in VALUE_TYPES.items() for k, t in types.items()
+                 if (t in ("S", "B") or t[0] == "[") and name != "merkleblock"]
+# arrays of transactions at 2^16: one of these per quick run (chosen by the seed), all of them in thorough
+TX_ARRAYS = (("blocktxn", "txs"), ("cmpctblock", "prefilled_txs"), ("block", "block"))
+# messages that share one layout: the 2^16 lengths go to one of each group per quick run
+SAME_LAYOUT = (("inv", "getdata", "notfound"), ("getblocks", "getheaders"))
+
+
+def alert_payload_of_length(rng, n):
+    a = {"version": u32(rng), "relayUntil": u64(rng), "expiration": u64(rng), "id": u32(rng), "cancel": u32(rng), "setCancel": [],
+         "minVer": 0, "maxVer": u32(rng), "setSubVer": [b"/x/"], "priority": 1, "comment": b"", "statusBar": b"s", "reserved": b""}
+    pad = n - len(P2P.enc_alert_payload(a))
+    for shrink in range(0, 12):
+        a["comment"] = b"c" * max(0, pad - shrink)
+        if len(P2P.enc_alert_payload(a)) == n:
+            return P2P.enc_alert_payload(a)
+    raise RuntimeError("no alert payload of %d bytes (oracle error)" % n)
+
+
+def with_length(rng, name, field, n):
+    """a value set of message `name` whose string / array `field` has exactly n bytes / elements"""
+    f = GENERATORS[name](rng, 99)
+    t = VALUE_TYPES[name][field]
+
+    def cycle(make):
+        pool = [make() for _ in range(min(n, 64))]
+        return [pool[i % 64] for i in range(n)]
+    if (name, field) == ("alert", "payload"):
+        f[field] = alert_payload_of_length(rng, n)
+    elif t == "S":
+        f[field] = G.rbytes(rng, n)
+    elif t == "B":
+        header, txs = G.rand_block(rng, min(n, 64), small=True)
+        txs = [txs[i % 64] for i in range(n)]
+        header["root"] = RB.root_of(txs)
+        f[field] = {"header": header, "txs": txs}
+    elif t == "[1]":
+        f[field] = list(G.rbytes(rng, n))
+    elif t == "[#]":
+        f[field] = cycle(lambda: G.rand_hash(rng))
+    elif t == "[v]":
+        f[field] = cycle(lambda: inv_item(rng))
+    elif t == "[LA]":
+        f[field] = cycle(lambda: {"time": u32(rng), "addr": address(rng)})
+    elif t == "[zI]":
+        f[field] = cycle(lambda: {"header": G.rand_header(rng), "txn_count": rng.choice([0, 1, 252, 253, 65536])})
+    elif t == "[6]":
+        f[field] = cycle(lambda: pick(rng, U48_EDGE, 48))
+    elif t == "[I]":
+        f[field] = cycle(lambda: pick(rng, CSIZE_EDGE, 16))
+    elif t == "[T]":
+        f[field] = cycle(lambda: G.rand_tx(rng, small=True))
+    elif t == "[IT]":
+        f[field] = cycle(lambda: {"index": rng.choice([0, 1, 253, 70000]), "tx": G.rand_tx(rng, small=True)})
+    else:
+        raise RuntimeError("no length generator for %s.%s of type %s: not monitored" % (name, field, t))
+    return f
+
+
+def length_cases(tier, seed):
+    """[(message, field, length)] of one run, in an order that spreads the long ones over the shards"""
+    try:
+        turn = int(seed)
+    except (TypeError, ValueError):
+        turn = sum(str(seed).encode())
+    out = []
+    for n in LENGTH_EDGE:
+        for name, k in LENGTH_FIELDS:
+            if n >= 65535 and tier == "quick":
+                if (name, k) in TX_ARRAYS and (TX_ARRAYS.index((name, k)) * 2 + (n & 1)) != turn % (2 * len(TX_ARRAYS)):
+                    continue
+                group = [g for g in SAME_LAYOUT if name in g]
+                if group and group[0][(turn + (n & 1)) % len(group[0])] != name:
+                    continue
+            out.append((name, k, n))
+    return out
+
+
+def required_lengths():
+    return ["length_edge:%s.%s:%d" % (name, k, n) for name, k in LENGTH_FIELDS for n in LENGTH_EDGE[:3]] + [
+        "length_edge:%s.%s:%d" % (name, k, n) for name, k in LENGTH_FIELDS for n in LENGTH_EDGE[3:]
+        if (name, k) not in TX_ARRAYS and not any(name in g for g in SAME_LAYOUT)] + [
+        "length_edge:tx_array:65535_or_65536", "length_edge:items:65535", "length_edge:items:65536",
+        "length_edge:locator:65535", "length_edge:locator:65536"]
+
+
+def run_length_cases(spec, rec):
+    cases = length_cases(spec["tier"], spec["seed"])
+    for i, (name, k, n) in enumerate(cases):
+        if i % spec["parts"] != spec["part"]:
+            continue
+        rng = shard_rng(spec["seed"], PROPERTY, spec["tier"], 0, salt="length:%s.%s:%d" % (name, k, n))
+        fields = with_length(rng, name, k, n)
+        v = fields[k]
+        if (len(v["txs"]) if isinstance(v, dict) else len(v)) != n:
+            rec.ev("inconclusive:length_case_has_not_the_promised_length")
+            continue
+        variant = make_variant(rng, name, fields, types_of(name), i) if n < 65535 else None
+        judge("LTC" if i % 5 == 4 else "BTC", name, fields, rec, variant=variant)
+        rec.ev("length_edge:%s.%s:%d" % (name, k, n))
+        if n >= 65535:
+            if (name, k) in TX_ARRAYS:
+                rec.ev("length_edge:tx_array:65535_or_65536")
+            elif name in SAME_LAYOUT[0]:
+                rec.ev("length_edge:items:%d" % n)
+            elif name in SAME_LAYOUT[1]:
+                rec.ev("length_edge:locator:%d" % n)
+
+
+# ------------------------------------------------------------------------------------------- the 2^16-th operation
+#
+# ONE dedicated shard: more than 2^16 + 100 (thorough: 2^17 + 100) pack and parse calls on ONE network's packer / parser
+# in one process, every call judged.  Each round packs and parses a `ping` with a running nonce (reference: the eight
+# little-endian bytes) and one further small message, all other message names in turn, built around a handful of
+# long-lived objects (the same PeerAddress / InvItem / Tx / header object in every round).
+
+def run_longrun(spec, rec, stop_after=None):
+    rounds = spec["longrun"]
+    rng = shard_rng(spec["seed"], PROPERTY, spec["tier"], spec["shard"], salt="longrun")
+    N = _net("BTC")
+    pack, parse = N.message.pack, N.message.parse
+    names = [n for n in table_names() if n != "ping"]
+    rec.require("longrun.pack", "longrun.parse", "longrun.rounds_above_2^16")
+    if spec["tier"] == "thorough":
+        rec.require("longrun.rounds_above_2^17")
+    pool = {"addr": [address(rng) for _ in range(2)], "inv": [inv_item(rng) for _ in range(2)],
+            "tx": [G.rand_tx(rng, small=True), G.rand_tx(rng, segwit=True)], "header": [G.rand_header(rng)]}
+
+    def share(v):
+        """the long-lived objects in place of generated ones (every second time)"""
+        if isinstance(v, list):
+            return [share(x) for x in v[:3]]
+        if isinstance(v, dict):
+            kind = kind_of(v)
+            if kind in pool:
+                return rng.choice(pool[kind]) if rng.random() < 0.5 else v
+            if kind and kind != "block":
+                return {k: share(x) for k, x in v.items()}
+        return v
+    live = {id(o): to_lib(N, o) for objs in pool.values() for o in objs}
+
+    def conv(v):
+        if isinstance(v, list):
+            return [conv(x) for x in v]
+        if isinstance(v, dict):
+            if id(v) in live and any(v is o for objs in pool.values() for o in objs):
+                return live[id(v)]
+            kind = kind_of(v)
+            if kind and kind.startswith("pair:"):
+                a, b = kind[5:].split(",")
+                return (conv(v[a]), conv(v[b]))
+        return to_lib(N, v)
+    nonce = rng.getrandbits(64)
+    n_pack = n_parse = 0
+    for i in range(rounds):
+        nonce = (nonce + 0x9e3779b97f4a7c15) & 0xffffffffffffffff if i % 1000 else (0xffffffffffffffff, 0, 1 << 63)[(i // 1000) % 3]
+        want = nonce.to_bytes(8, "little")
+        case = {"longrun": {"seed": spec["seed"], "tier": spec["tier"], "shard": spec["shard"], "rounds": rounds}, "round": i}
+        st, got = observe(pack, "ping", nonce=nonce)
+        n_pack += 1
+        if st != "ok" or got != want:
+            rec.violation("p2p.longrun.pack_wrong.ping", case, got, want)
+            break
+        st, d = observe(parse, "ping", want)
+        n_parse += 1
+        if st != "ok" or not isinstance(d, dict) or d.get("nonce") != nonce or not isinstance(d.get("nonce"), int):
+            rec.violation("p2p.longrun.parse_wrong.ping", case, d, {"nonce": nonce})
+            break
+        name = names[i % len(names)]
+        fields = GENERATORS[name](rng, 20 + rng.randrange(1000)) if name not in ("block", "merkleblock") or i % 7 == 0 else None
+        if fields is None:
+            name = "pong"
+            fields = {"nonce": nonce ^ 0xff}
+        if name not in ("block", "merkleblock"):
+            fields = {k: share(v) for k, v in fields.items()}
+        want = P2P.encode(name, fields)
+        case["name"] = name
+        st, got = observe(lambda: pack(name, **{k: conv(v) for k, v in fields.items()}))
+        n_pack += 1
+        if st != "ok" or got != want:
+            rec.violation("p2p.longrun.pack_wrong.%s" % name, case, got, want)
+            break
+        st, d = observe(parse, name, want)
+        n_parse += 1
+        bad = parse_mismatches(N, name, d, fields) if st == "ok" else None
+        if st != "ok" or bad:
+            rec.violation("p2p.longrun.parse_wrong.%s" % name, case, d if st != "ok" else bad, fields)
+            break
+        if stop_after is not None and i >= stop_after:
+            break
+    rec.case(("longrun", spec["seed"], rounds), nontrivial=True, n=n_pack)
+    rec.ev("longrun.pack", n_pack)
+    rec.ev("longrun.parse", n_parse)
+    if i + 1 >= (1 << 16) + 100:
+        rec.ev("longrun.rounds_above_2^16")
+    if i + 1 >= (1 << 17) + 100:
+        rec.ev("longrun.rounds_above_2^17")
+
+
 def run_shard(spec, rec):
     table = table_names()
     check_table(table)
+    if spec.get("longrun"):
+        return run_longrun(spec, rec)
     rec.require("pack", "parse", "relay:true", "relay:false", "relay:absent")
     rec.require(*required_classes())
     rec.require("repack_of_parsed:returned")
     if spec.get("histories", 0):
         rec.require("history", "history.pack", "history.parse", "history.read_only_call", "history.invalid_pack_raised",
+                    *["history.refused_pack:" + x for x in REFUSED_PACK_KINDS],
                     "history.damaged_parse_raised", "history.step:parse_same_bytes_again", "history.step:adopt_parsed_objects",
                     *["history.pack_after:" + a for a in ("failed_pack", "failed_pack_other_network", "failed_parse", "set_nonce", "set_txs", "set_witness", "txin_script",
                                                           "txin_sequence", "txout_coin_value", "list_edit", "adopt_parsed", "valid_call")])
@@ -1540,6 +2083,8 @@ def run_shard(spec, rec):
                 "repack_of_parsed:with_keys_added_by_parse", *["pack_variant:order_" + x for x in ORDER_KINDS],
                 *["pack_variant:containers_" + x for x in CONTAINER_KINDS], *["repack_of_parsed:" + x for x in ("parsed", "reversed", "sorted", "shuffled")],
                 *["parse_input:" + x for x in ("subclass", "bytearray", "memoryview", "bytearray_view")])
+    rec.require("pack_variant:same_objects_again", "pack_value_type:same_objects_again", *["pack_value_type:" + x for x in TYPE_DIMS],
+                *["pack_value_type:str:" + x for x in TEXT_CLASSES])
     if spec.get("histories", 0):
         rec.require("history.pack_keywords:declared_order", "history.pack_keywords:other_order", "history.pack_keywords:with_undeclared_keys",
                     *["history.parse_input:" + x for x in sorted(set(History.HOW_DATA))])
@@ -1552,11 +2097,19 @@ def run_shard(spec, rec):
         else:
             ks = range(part, sets, parts)
         vrng = shard_rng(spec["seed"], PROPERTY, spec["tier"], spec["shard"], salt="spelling:" + name)
+        trng = shard_rng(spec["seed"], PROPERTY, spec["tier"], spec["shard"], salt="types:" + name)
+        n_typed = part                                   # the shards start at different dimensions
         for j, k in enumerate(ks):
             net = "LTC" if k % 5 == 4 else "BTC"
             fields = gen(rng, k)
             variant = make_variant(vrng, name, fields, types_of(name), j + (part if gen is g_empty else 0))
+            if fields and (j % 2 == 1 or j < 16):
+                # every second value set once more in another value-TYPE spelling
+                variant["types"] = make_type_spelling(trng, name, n_typed)
+                n_typed += 1
             judge(net, name, fields, rec, sample=(k == part and part < 3 and name in ("version", "cmpctblock", "addr")), variant=variant)
+    rec.require(*required_lengths())
+    run_length_cases(spec, rec)
     for h in range(spec.get("histories", 0)):
         run_history({"seed": spec["seed"], "tier": spec["tier"], "shard": spec["shard"], "h": h}, rec)
     if part == 0:
@@ -1575,5 +2128,8 @@ def replay_case(case, rec):
     check_table(table_names())
     if "history" in case:
         run_history(case["history"], rec)
+        return
+    if "longrun" in case:
+        run_longrun(dict(case["longrun"], longrun=case["longrun"]["rounds"]), rec, stop_after=case["round"])
         return
     judge(case["net"], case["name"], case["fields"], rec, variant=case.get("variant"))
